@@ -272,6 +272,8 @@ func (e *Engine) intrinsic(st *State, fr *Frame, name string, fn *ssa.Function, 
 		return &intrRes{e.closedNow(st, e.chanTermOf(st, args[0]))}, true
 	case "gvcHeld":
 		return &intrRes{c.Select(e.chMine(e.rd(st)), e.chanTermOf(st, args[0]))}, true
+	case "gvcIsArmed":
+		return &intrRes{c.Select(e.heapArr(e.rd(st), "chan.armed", smt.Bool), e.chanTermOf(st, args[0]))}, true
 	case "gvcArmed":
 		return &intrRes{c.Select(e.chLastSent(e.rd(st)), e.chanTermOf(st, args[0]))}, true
 	case "gvcMod", "gvcModAll", "gvcModElems", "gvcModMap", "gvcModChan":
@@ -595,10 +597,8 @@ func (e *Engine) applyMod(st *State, kind string, arg Value) {
 		ch := e.chanTermOf(st, arg)
 		havocHeap("chan.mine", smt.Bool, ch)
 		havocHeap("chan.lastsent", smt.BV64, ch)
-		if rec == nil {
-			// the callee may close the channel: force a refresh at the next read
-			delete(st.Touched, ch)
-		}
+		havocHeap("chan.armed", smt.Bool, ch)
+
 	case "gvcModMap":
 		m := arg.(*smt.Term)
 		for _, key := range sortedKeys(st.Heap) {
